@@ -119,6 +119,8 @@ def main():
     ap.add_argument('--drv', default=vlib.DRV)
     ap.add_argument('--store', default='basic')
     ap.add_argument('--show', type=int, default=10)
+    ap.add_argument('--absdepth', action='store_true', help='also run the verified depth analysis (suite ABSDEPTH) on the DUMP lines')
+    ap.add_argument('--wf', action='store_true', help='also report how many programs satisfy WFProgram')
     a = ap.parse_args()
     rnd = random.Random(a.seed)
     progs = []
@@ -140,7 +142,32 @@ def main():
             dump.append(['DUMP', f'{k}:{st}', st, vlib.esc(src)])
     vlib.log(f'{len(progs)} programs ({sum(1 for s, _ in progs if s == "small")} small); constructs: {dict(fc)}')
     impl = vlib.run_impl(dump, 'compilegen', per_case_s=5.0)
+    if a.wf:
+        wfc = [['WFCHECK', c[1], c[2]] for c in comp]
+        wfr = vlib.run_sharded(a.drv, wfc, 'compilegen.wf', supervised=False)
+        cnt = collections.Counter()
+        why = collections.Counter()
+        for k in info:
+            r = wfr.get(k) or 'missing'
+            cnt[r.split(' ')[0]] += 1
+            if not r.startswith('wf=true'):
+                why[' '.join(x for x in r.split(' ')[1:] if x.endswith('false'))] += 1
+        print(f'WFProgram (after canonical labelling): {dict(cnt)}; failing fields: {dict(why)}')
     model = vlib.run_sharded(a.drv, comp, 'compilegen.model', supervised=False)
+    if a.absdepth:
+        # the verified depth analysis on the implementation's own instruction streams
+        adc = [['ABSDEPTH', k, impl.get(f'{k}:{stores[0]}') or '-'] for k in info]
+        adr = vlib.run_sharded(a.drv, adc, 'compilegen.absdepth', supervised=False)
+        cnt = collections.Counter((adr.get(k) or 'missing').split(' ')[0] for k in info)
+        print(f'ABSDEPTH on the implementation streams: {dict(cnt)}')
+        if a.wf:
+            bad = [k for k in info if (wfr.get(k) or '').startswith('wf=true') and not (adr.get(k) or '').startswith('balanced=true')]
+            print(f'WFProgram programs that are not balanced: {len(bad)}')
+            for k in bad[:a.show]:
+                print('   ', repr(info[k][1]), adr.get(k))
+        unb = sorted((k for k in info if (adr.get(k) or '').startswith('balanced=false')), key=lambda k: len(info[k][1]))
+        for k in unb[:a.show]:
+            print('    unbalanced:', repr(info[k][1]), adr.get(k))
     same = 0
     diffs = []
     outcomes = collections.Counter()
